@@ -11,7 +11,7 @@ import json
 
 from vlib import runner, sut, std, corpusio, fuzz
 from vlib.runner import Outcome, Report, Reject
-from gen import messages as gmsg, templates as gtemplates
+from gen import messages as gmsg, templates as gtemplates, pool as gpool
 from refbufr import pathref, IllFormed, Unsupported
 from pybufrkit.dataquery import NodePathParser, DataQuerent
 
@@ -192,7 +192,17 @@ def ordinary_ids(nj_all):
 
 
 def gen_case(ch, opts, n_paths):
-    case = gmsg.gen_case(ch, opts)
+    if ch.bool(1, 8):
+        # one element outside and inside (nested) replications: its bare ID matches at several nesting depths
+        mv = ch.choice(opts.versions or gmsg.QUICK_VERSIONS)
+        pl = gpool.pool_for(mv)
+        e, f = ch.choice(pl.num_all), ch.choice(pl.num_all)
+        ids = ch.choice([[e, 101002, e], [e, f, 102000, 31001, f, 101000, 31001, e], [102002, e, 101002, e, e, f],
+                         [e, 103000, 31001, f, e, 101000, 31001, e, f]])
+        case = gmsg.gen_case(ch, opts, fixed=(mv, None, ids))
+        case.features.add('same_id_at_several_depths')
+    else:
+        case = gmsg.gen_case(ch, opts)
     o, nj = nested_of(case)
     if not o.ok:
         raise Reject('message does not decode (C01 reports it)')
@@ -312,7 +322,7 @@ def check_case(qc):
     out = Outcome()
     case = qc.case
     n = case.nsub
-    out.classes = ['compressed' if case.compressed else 'uncompressed']
+    out.classes = ['compressed' if case.compressed else 'uncompressed'] + (['same_id_at_several_depths'] if 'same_id_at_several_depths' in case.features else [])
     results = {}
     for kind in ('plain', 'compiled'):
         o = sut.call(decoder(kind).process, case.bytes)
